@@ -14,6 +14,9 @@ Definition mk_visitor (p : bool * list rule) : visitor :=
 
 Inductive in18 :=
 | CVisit (vs : list (bool * list rule)) (root : node)   (* .visit(root) with a chain of recording visitors *)
+| CVisitPos (vs : list (bool * list rule)) (insts : list nat) (root : node)
+    (* a chain given position by position; [insts] maps each position to the visitor *instance*
+       standing there (one instance may occupy several positions); the log names instances *)
 | CTransform (which : N) (d : document)                  (* 0 aliases, 1 camel->snake, 2 snake->camel *)
 | CDispatch (k : kind)                                   (* class tables *)
 | CCase (which : N) (name : str).                        (* 1 camel->snake, 2 snake->camel on a name *)
@@ -41,6 +44,10 @@ Definition model_C18 (i : in18) : outcome obs18 :=
   match i with
   | CVisit vs root =>
       do p <- visit_top fuel18 (map mk_visitor vs) root; Ok (OVisit (fst p) (snd p))
+  | CVisitPos vs insts root =>
+      do p <- visit_top fuel18 (map mk_visitor vs) root;
+      Ok (OVisit (map (fun e : event => match e with (i, en, k, l) => (nth i insts i, en, k, l) end) (fst p))
+                 (snd p))
   | CTransform which d =>
       do p <- visit_top fuel18 [transform_visitor which] (NDoc d); Ok (OTree (snd p))
   | CDispatch k =>
